@@ -92,6 +92,17 @@ class TU:
             et = self.vtype_q(m.group(1))
         except Unsupported:
             return None
+        lits = [c for c in d.get('inner', []) if c.get('kind') == 'StringLiteral']
+        if lits and et.w == 8:
+            # char t[N] = "...": the bytes of the literal, zero filled (clang prints the literal with its quotes and C escapes)
+            try:
+                import ast as _ast
+                raw = _ast.literal_eval('b' + lits[0]['value'])
+            except (ValueError, SyntaxError, KeyError):
+                return None
+            n = int(m.group(2))
+            vals = list(raw)[:n] + [0] * max(0, n - len(raw))
+            return (vals, et) if 0 < n <= 1024 else None
         init = [c for c in d.get('inner', []) if c.get('kind') == 'InitListExpr']
         if not init or et.ptr:
             return None
